@@ -609,8 +609,10 @@ func relatedOperands(c *h.Ctx) {
 func abortedOperands(c *h.Ctx) {
 	exprs := []string{`($.a[*] == 1) is unknown`, `!(($.a[*] > 5) is unknown)`, `($.a[*].double() > 1) is unknown`, `(exists($.a[*] ? (@ > 1))) is unknown`, `($.s == 1) is unknown || $.a[0] == 1`,
 		`($.a[*] == 1 && $.s == "x") is unknown`, `$ ? ((@.a[*] > 1) is unknown)`, `$.a[*] ? ((@ == "x") is unknown)`, `exists($ ? ((@.s.double() > 1) is unknown))`, `(($.a[*] == 1) is unknown) is unknown`,
-		`!($.a[*] == 9)`, `$.a[*] == 9 || ($.s starts with "x")`, `!exists($.a[*] ? (@ == 9))`}
-	doc := `{"a":[1,2,"x",3],"s":"x"}`
+		`!($.a[*] == 9)`, `$.a[*] == 9 || ($.s starts with "x")`, `!exists($.a[*] ? (@ == 9))`,
+		// ... with the steps of a subscript expression inside the operand
+		`($.a[$.i] == 2) is unknown`, `!($.a[0 to $.i] == 9)`, `exists($.a[$.i])`, `$.s == "y" || $.a[$.i] == 2`, `$.s == "x" && $.a[$.i[0]] == 2`, `$ ? ((@.a[@.i] == 2) is unknown)`, `$ ? (!(@.a[$.i, 0] == 9))`, `(exists($.a[$.i ? (@ > 0)])) is unknown`}
+	doc := `{"a":[1,2,"x",3],"s":"x","i":1}`
 	idx := 0
 	for _, ex := range exprs {
 		for _, lax := range []bool{true, false} {
